@@ -1,7 +1,7 @@
 (* C01 - messages reach exactly the addressed audience, once, truly attributed.
    Statements only; proofs in IRCP.MsgP. *)
-From IRC Require Import Str Wild Parse Reply State Handlers.
-From IRCP Require Import MsgP.
+From IRC Require Import Str Wild Parse Reply State Handlers Step.
+From IRCP Require Import MsgP Reach IdentP.
 From stdpp Require Import gmap.
 
 Section C01.
@@ -72,9 +72,20 @@ Proof. intros l. split; [apply dedup_str_nodup|intros x; apply dedup_str_elem]. 
 
 End C01.
 
+(* "truly attributed": in every reachable world - whatever the order of NICK and USER at registration, and
+   however many nick changes followed - the source string of a registered user, which is the prefix of
+   every copy it originates (C01_line_shape), is nick!~user@host with the nick it is registered under now,
+   the user name it gave and its host; the connection that owns the record is registered under that nick
+   and caches the same string *)
+Theorem C01_true_attribution : forall cfg verify w n u, reachable cfg verify w -> users (sh w) !! n = Some u ->
+  u_source u = n ++ [c_excl] ++ (c_tilde :: u_name u) ++ (c_at :: u_host u) /\
+  exists c, conns w !! u_conn u = Some c /\ c_auth c = true /\ c_nick c = Some n /\ c_source c = u_source u.
+Proof. exact source_is_identity. Qed.
+
 Print Assumptions C01_line_shape.
 Print Assumptions C01_audience.
 Print Assumptions C01_channel_exactly_once.
 Print Assumptions C01_nick_target.
 Print Assumptions C01_command.
 Print Assumptions C01_distinct_targets.
+Print Assumptions C01_true_attribution.
